@@ -55,7 +55,7 @@ func runC03(p *Prog, r *Report) {
 			r.Check(len(sp) == 1, R, "stops-"+tmr, sp.Pos(p), tmr+" stopped", "cancel does not stop "+tmr)
 		}
 		bc := cn.Ev("call", "sync.(*Cond).Broadcast")
-		r.Check(len(bc) == 1 && len(bc[0].Guard) == 0, R, "wakes-waiters", bc.Pos(p), "Broadcast on every path", "cancel does not wake waiters unconditionally")
+		r.Check(len(bc) == 1 && bc[0].Unconditional(), R, "wakes-waiters", bc.Pos(p), "Broadcast on every path", "cancel does not wake waiters unconditionally")
 	}
 
 	R = "C03.4/new-send-abandons-previous"
